@@ -1,4 +1,5 @@
 from props.lie import *
+from props import apiops
 
 TOL = {'f64': 1e-9, 'f32': 1e-3}
 
@@ -7,10 +8,13 @@ def audit(lines):
     reqs = []
     ads = {}
     k = 0
+    thin = apiops.Thin(3)
     for l in lines:
         p = l.prec + 'a'
         base = {'key': std_key(l), 'line': l.raw, 'tol': TOL[l.prec], 'judge': simple_judge}
-        if l.op == 'Ad':
+        if apiops.audit_c03(l, p, base, reqs, thin, k, tangent_words):
+            k += 1
+        elif l.op == 'Ad':
             k += 1
             n = int(round(len(l.outs) ** 0.5))
             a = tangent_words(n, l.prec, k)
@@ -44,8 +48,11 @@ def audit(lines):
 
 
 def make():
-    return LieProp('C03', ['hat', 'vee', 'Ad', 'ad', 'bracket', 'Adexp'], ['SmoothProps/C03.lean'], audit, TOL,
+    return LieProp('C03', ['hat', 'vee', 'Ad', 'ad', 'bracket', 'Adexp'] + apiops.API_OPS['C03'], ['SmoothProps/C03.lean', 'SmoothProps/C03Round.lean'], audit, TOL,
                    rule='harness/lie.cpp: every group type of the catalogue x scalar x 9 rotation-angle strata x 5 translation strata '
                         '(tangents up to 1e3); hat/vee compared at 0 ulp; distinct_nontrivial = distinct (op,group,scalar,stratum,input bits) '
                         'with a non-zero input',
-                   assumptions=['rounding audited with exact rational commutators and a 320-bit series for exp(ad a), not proved'])
+                   assumptions=['rounding: hat, ad (SO3/SE2/SE3), Ad (SE2, commutative groups) are exact, vee / Ad (SO3, SE3) / lie_bracket (SO3, SE2, SE3) '
+                                'are bounded in the standard model fl(x op y) = (x op y)(1+d), |d| <= u (SmoothProps/C03Round.lean); Galilei / SE_K_3 / '
+                                'Bundle Ad, ad, bracket and Ad(exp a) are audited with exact rational commutators and a 320-bit series for exp(ad a), '
+                                'not proved'])
